@@ -93,8 +93,8 @@ theorem amounts_cast (n : ℕ) :
   have h2 : fftshiftAmount (n : ℤ) = ((n / 2 : ℕ) : ℤ) := by unfold fftshiftAmount; omega
   have h1 : ifftshiftAmount (n : ℤ) = (n : ℤ) - ((n / 2 : ℕ) : ℤ) := by unfold ifftshiftAmount; omega
   constructor
-  · rw [h1]; push_cast; simp
-  · rw [h2]; push_cast; rfl
+  · rw [h1, Int.cast_sub, Int.cast_natCast, Int.cast_natCast, ZMod.natCast_self, zero_sub]
+  · rw [h2, Int.cast_natCast]
 
 /-- **the centred transform is the textbook shifted DFT** (`c₀ = n / 2`), for every `n ≥ 1`, both
 directions, every normalisation:
@@ -119,5 +119,221 @@ theorem centered_eq_shifted_dft {n : ℕ} [NeZero n] (inverse : Bool) (nm : Norm
   simp only [hshift]
   refine Fintype.sum_equiv (Equiv.addRight ((n / 2 : ℕ) : ZMod n)) _ _ (fun j => ?_)
   simp only [Equiv.coe_addRight, add_sub_cancel_right]
+
+/-- the norm the plan selects -/
+def normOf (cfg : Cfg) : Norm := if cfg.normalized then .ortho else .backward
+
+/-- **`fft2_eq_centered_dft`**: the model's centred `fft2` (interpreted plan, `ZMod` DFT as the
+transform) equals the textbook shifted DFT `scale · Σ_j x_j ω^{-(j-c₀)(k-c₀)}`, `c₀ = n / 2`,
+for every length, every `normalized` / `complex_input`. -/
+theorem fft2_eq_centered_dft {n : ℕ} [NeZero n] (cfg : Cfg) (hc : cfg.centered = true) (xs : List ℂ)
+    (h : xs.length = n) (k : ZMod n) :
+    toFn (fft2 (listBackend torchFft) cfg xs) k =
+      scale false (normOf cfg) n * ∑ j : ZMod n,
+        (stdAddChar (-((j - ((n / 2 : ℕ) : ZMod n)) * (k - ((n / 2 : ℕ) : ZMod n)))) : ℂ) * toFn xs j := by
+  obtain ⟨c, nz, ci⟩ := cfg
+  subst hc
+  have := centered_eq_shifted_dft false (normOf ⟨true, nz, ci⟩) xs h k
+  cases nz <;> cases ci <;>
+    simpa [fft2, runData, fft2Plan, Guard.holds, applyOp, listBackend, normOf] using this
+
+/-- the same for `ifft2` (kernel `ω^{+(j-c₀)(k-c₀)}`) -/
+theorem ifft2_eq_centered_dft {n : ℕ} [NeZero n] (cfg : Cfg) (hc : cfg.centered = true) (xs : List ℂ)
+    (h : xs.length = n) (k : ZMod n) :
+    toFn (ifft2 (listBackend torchFft) cfg xs) k =
+      scale true (normOf cfg) n * ∑ j : ZMod n,
+        (stdAddChar ((j - ((n / 2 : ℕ) : ZMod n)) * (k - ((n / 2 : ℕ) : ZMod n))) : ℂ) * toFn xs j := by
+  obtain ⟨c, nz, ci⟩ := cfg
+  subst hc
+  have := centered_eq_shifted_dft true (normOf ⟨true, nz, ci⟩) xs h k
+  cases nz <;> cases ci <;>
+    simpa [ifft2, runData, ifft2Plan, Guard.holds, applyOp, listBackend, normOf] using this
+
+/-- the uncentred transform is the plain DFT `scale · Σ_j x_j ω^{-jk}` -/
+theorem fft2_eq_dft {n : ℕ} [NeZero n] (cfg : Cfg) (hc : cfg.centered = false) (xs : List ℂ)
+    (h : xs.length = n) (k : ZMod n) :
+    toFn (fft2 (listBackend torchFft) cfg xs) k =
+      scale false (normOf cfg) n * ∑ j : ZMod n, (stdAddChar (-(j * k)) : ℂ) * toFn xs j := by
+  obtain ⟨c, nz, ci⟩ := cfg
+  subst hc
+  have := congrFun (toFn_torchFft false (normOf ⟨false, nz, ci⟩) xs h) k
+  cases nz <;> cases ci <;>
+    simpa [fft2, runData, fft2Plan, Guard.holds, applyOp, listBackend, normOf, torchFftFn, kernelSum] using this
+
+/-! ### the concrete pair is an inverse pair -/
+
+theorem kernelSum_false {n : ℕ} [NeZero n] (Φ : ZMod n → ℂ) : kernelSum false Φ = 𝓕 Φ := by
+  funext k; simp [kernelSum, ZMod.dft_apply]
+
+theorem kernelSum_true {n : ℕ} [NeZero n] (Ψ : ZMod n → ℂ) : kernelSum true Ψ = (n : ℂ) • 𝓕⁻ Ψ := by
+  funext k
+  simp only [kernelSum, if_true, ZMod.invDFT_apply, Pi.smul_apply, smul_eq_mul]
+  rw [← mul_assoc, mul_inv_cancel₀ (NeZero.ne _), one_mul]
+
+theorem kernelSum_smul {n : ℕ} [NeZero n] (inverse : Bool) (c : ℂ) (Φ : ZMod n → ℂ) :
+    kernelSum inverse (fun j => c * Φ j) = fun k => c * kernelSum inverse Φ k := by
+  funext k
+  simp only [kernelSum, Finset.mul_sum]
+  exact Finset.sum_congr rfl fun j _ => by ring
+
+theorem scale_mul (nm : Norm) (n : ℕ) [NeZero n] : scale true nm n * scale false nm n * (n : ℂ) = 1 := by
+  have hn : (n : ℂ) ≠ 0 := NeZero.ne _
+  cases nm
+  · have hs : ((Real.sqrt n : ℝ) : ℂ) * ((Real.sqrt n : ℝ) : ℂ) = (n : ℂ) := by
+      rw [← Complex.ofReal_mul, Real.mul_self_sqrt (Nat.cast_nonneg n)]; simp
+    have h0 : ((Real.sqrt n : ℝ) : ℂ) ≠ 0 := fun e => hn (by rw [← hs, e, zero_mul])
+    simp only [scale]
+    rw [← hs]; field_simp
+  · simp [scale, hn]
+  · simp [scale, hn]
+
+theorem torchFftFn_inv_fwd {n : ℕ} [NeZero n] (nm : Norm) (Φ : ZMod n → ℂ) :
+    torchFftFn true nm (torchFftFn false nm Φ) = Φ := by
+  funext k
+  have h1 : kernelSum true (fun j => scale false nm n * kernelSum false Φ j) k
+      = scale false nm n * ((n : ℂ) * Φ k) := by
+    rw [kernelSum_smul, kernelSum_false, kernelSum_true]
+    simp
+  show scale true nm n * kernelSum true (fun j => scale false nm n * kernelSum false Φ j) k = Φ k
+  rw [h1, ← mul_assoc, ← mul_assoc, scale_mul, one_mul]
+
+theorem torchFftFn_fwd_inv {n : ℕ} [NeZero n] (nm : Norm) (Φ : ZMod n → ℂ) :
+    torchFftFn false nm (torchFftFn true nm Φ) = Φ := by
+  funext k
+  have h1 : kernelSum false (fun j => scale true nm n * kernelSum true Φ j) k
+      = scale true nm n * ((n : ℂ) * Φ k) := by
+    rw [kernelSum_smul, kernelSum_true, kernelSum_false]
+    simp only [_root_.map_smul, Pi.smul_apply, smul_eq_mul, LinearEquiv.apply_symm_apply]
+  show scale false nm n * kernelSum false (fun j => scale true nm n * kernelSum true Φ j) k = Φ k
+  rw [h1, ← mul_assoc, ← mul_assoc, mul_comm (scale false nm n), scale_mul, one_mul]
+
+theorem torchFft_inv_fwd (nm : Norm) (xs : List ℂ) : torchFft true nm (torchFft false nm xs) = xs := by
+  by_cases h0 : xs.length = 0
+  · have : xs = [] := List.eq_nil_of_length_eq_zero h0
+    subst this; simp [torchFft]
+  · have : NeZero xs.length := ⟨h0⟩
+    have hl := torchFft_length false nm xs
+    have e := toFn_torchFft (n := xs.length) true nm (torchFft false nm xs) hl
+    rw [toFn_torchFft (n := xs.length) false nm xs rfl, torchFftFn_inv_fwd] at e
+    rw [← ofFn_toFn (n := xs.length) (torchFft true nm (torchFft false nm xs)) (by rw [torchFft_length, hl]), e,
+      ofFn_toFn xs rfl]
+
+theorem torchFft_fwd_inv (nm : Norm) (xs : List ℂ) : torchFft false nm (torchFft true nm xs) = xs := by
+  by_cases h0 : xs.length = 0
+  · have : xs = [] := List.eq_nil_of_length_eq_zero h0
+    subst this; simp [torchFft]
+  · have : NeZero xs.length := ⟨h0⟩
+    have hl := torchFft_length true nm xs
+    have e := toFn_torchFft (n := xs.length) false nm (torchFft true nm xs) hl
+    rw [toFn_torchFft (n := xs.length) true nm xs rfl, torchFftFn_fwd_inv] at e
+    rw [← ofFn_toFn (n := xs.length) (torchFft false nm (torchFft true nm xs)) (by rw [torchFft_length, hl]), e,
+      ofFn_toFn xs rfl]
+
+/-- **inverse law with the concrete DFT, no hypotheses left**: for every complex list (every
+length), all 8 flag combinations -/
+theorem ifft2_fft2_id_dft (cfg : Cfg) (xs : List ℂ) :
+    ifft2 (listBackend torchFft) cfg (fft2 (listBackend torchFft) cfg xs) = xs ∧
+    fft2 (listBackend torchFft) cfg (ifft2 (listBackend torchFft) cfg xs) = xs :=
+  ⟨C01.ifft2_fft2_id torchFft torchFft_inv_fwd torchFft_fwd_inv cfg xs,
+   C01.fft2_ifft2_id torchFft torchFft_inv_fwd torchFft_fwd_inv cfg xs⟩
+
+/-! ### Parseval for the concrete pair: the `norm="ortho"` transforms preserve `Σ |x_k|²` -/
+open scoped ComplexConjugate
+
+/-- Plancherel for `ZMod.dft`: `⟪𝓕Φ, 𝓕Ψ⟫ = n ⟪Φ, Ψ⟫` -/
+theorem dft_inner {n : ℕ} [NeZero n] (Φ Ψ : ZMod n → ℂ) :
+    ∑ k, conj (𝓕 Φ k) * 𝓕 Ψ k = (n : ℂ) * ∑ j, conj (Φ j) * Ψ j := by
+  have h1 : ∀ k, conj (𝓕 Φ k) = ∑ j, (stdAddChar (j * k) : ℂ) * conj (Φ j) := by
+    intro k
+    rw [ZMod.dft_apply, map_sum]
+    refine Finset.sum_congr rfl fun j _ => ?_
+    rw [smul_eq_mul, map_mul, ← AddChar.map_neg_eq_conj, neg_neg]
+  have h2 : ∀ j, ∑ k, (stdAddChar (k * j) : ℂ) * 𝓕 Ψ k = (n : ℂ) * Ψ j := by
+    intro j
+    have := ZMod.invDFT_apply (𝓕 Ψ) j
+    rw [LinearEquiv.symm_apply_apply, smul_eq_mul] at this
+    rw [this, ← mul_assoc, mul_inv_cancel₀ (NeZero.ne _), one_mul]
+    simp only [smul_eq_mul]
+  simp only [h1, Finset.sum_mul]
+  rw [Finset.sum_comm, Finset.mul_sum]
+  refine Finset.sum_congr rfl fun j _ => ?_
+  rw [mul_left_comm, ← h2 j, Finset.mul_sum]
+  refine Finset.sum_congr rfl fun k _ => ?_
+  rw [mul_comm j k]; ring
+
+/-- energy of a function on `ℤ/n` -/
+noncomputable def energyFn {n : ℕ} [NeZero n] (Φ : ZMod n → ℂ) : ℂ := ∑ k, conj (Φ k) * Φ k
+
+theorem energyFn_smul {n : ℕ} [NeZero n] (c : ℂ) (Φ : ZMod n → ℂ) :
+    energyFn (fun k => c * Φ k) = conj c * c * energyFn Φ := by
+  simp only [energyFn, Finset.mul_sum, map_mul]
+  exact Finset.sum_congr rfl fun k _ => by ring
+
+theorem sqrt_scale (n : ℕ) [NeZero n] :
+    conj (((Real.sqrt n : ℝ) : ℂ)⁻¹) * ((Real.sqrt n : ℝ) : ℂ)⁻¹ * (n : ℂ) = 1 := by
+  have hn : (n : ℂ) ≠ 0 := NeZero.ne _
+  have hs : ((Real.sqrt n : ℝ) : ℂ) * ((Real.sqrt n : ℝ) : ℂ) = (n : ℂ) := by
+    rw [← Complex.ofReal_mul, Real.mul_self_sqrt (Nat.cast_nonneg n)]; simp
+  have h0 : ((Real.sqrt n : ℝ) : ℂ) ≠ 0 := fun e => hn (by rw [← hs, e, zero_mul])
+  rw [map_inv₀, Complex.conj_ofReal, ← hs]; field_simp
+
+/-- **Parseval**: the orthonormal forward and backward transforms preserve the energy -/
+theorem energyFn_torchFftFn_ortho {n : ℕ} [NeZero n] (inverse : Bool) (Φ : ZMod n → ℂ) :
+    energyFn (torchFftFn inverse .ortho Φ) = energyFn Φ := by
+  have hn : (n : ℂ) ≠ 0 := NeZero.ne _
+  cases inverse
+  · show energyFn (fun k => scale false .ortho n * kernelSum false Φ k) = _
+    rw [energyFn_smul, kernelSum_false]
+    show _ * (∑ k, conj (𝓕 Φ k) * 𝓕 Φ k) = _
+    rw [dft_inner, ← mul_assoc]
+    show conj (((Real.sqrt n : ℝ) : ℂ)⁻¹) * ((Real.sqrt n : ℝ) : ℂ)⁻¹ * (n : ℂ) * energyFn Φ = _
+    rw [sqrt_scale, one_mul]
+  · show energyFn (fun k => scale true .ortho n * kernelSum true Φ k) = _
+    rw [energyFn_smul, kernelSum_true]
+    have hΦ : energyFn Φ = (n : ℂ) * energyFn (𝓕⁻ Φ) := by
+      have := dft_inner (𝓕⁻ Φ) (𝓕⁻ Φ)
+      simp only [LinearEquiv.apply_symm_apply] at this
+      exact this
+    have e2 : energyFn ((n : ℂ) • 𝓕⁻ Φ) = conj (n : ℂ) * (n : ℂ) * energyFn (𝓕⁻ Φ) := energyFn_smul _ _
+    rw [e2, hΦ, Complex.conj_natCast]
+    show conj (((Real.sqrt n : ℝ) : ℂ)⁻¹) * ((Real.sqrt n : ℝ) : ℂ)⁻¹ * _ = _
+    have := sqrt_scale n
+    calc conj (((Real.sqrt n : ℝ) : ℂ)⁻¹) * ((Real.sqrt n : ℝ) : ℂ)⁻¹ * ((n : ℂ) * (n : ℂ) * energyFn (𝓕⁻ Φ))
+        = (conj (((Real.sqrt n : ℝ) : ℂ)⁻¹) * ((Real.sqrt n : ℝ) : ℂ)⁻¹ * (n : ℂ)) * ((n : ℂ) * energyFn (𝓕⁻ Φ)) := by ring
+      _ = (n : ℂ) * energyFn (𝓕⁻ Φ) := by rw [this, one_mul]
+
+theorem sum_map_range {M : Type} [AddCommMonoid M] (g : ℕ → M) (n : ℕ) :
+    ((List.range n).map g).sum = ∑ i ∈ Finset.range n, g i := by
+  induction n with
+  | zero => simp
+  | succ n ih => rw [List.range_succ, List.map_append, List.sum_append, ih, Finset.sum_range_succ]; simp
+
+/-- the list energy of `Props/C01.lean` is the sum over `ℤ/n` -/
+theorem energy_eq_sum {M : Type} [AddCommMonoid M] {n : ℕ} [NeZero n] (w : ℂ → M) (xs : List ℂ) (h : xs.length = n) :
+    C01.energy w xs = ∑ k : ZMod n, w (toFn xs k) := by
+  obtain ⟨m, rfl⟩ := Nat.exists_eq_succ_of_ne_zero (NeZero.ne n)
+  conv_lhs => rw [← ofFn_toFn (n := m + 1) xs h]
+  unfold C01.energy ofFn
+  rw [List.map_map, sum_map_range, Finset.sum_range]
+  refine Finset.sum_congr rfl fun i _ => ?_
+  exact congrArg (fun z => w (toFn xs z)) (ZMod.natCast_zmod_val (n := m + 1) (show ZMod (m + 1) from i))
+
+/-- **`fft2_energy` with the concrete DFT, no hypotheses left**: the normalised `fft2` / `ifft2`
+preserve `Σ_k conj(x_k)·x_k = Σ_k |x_k|²` for every complex list, centred or not. -/
+theorem fft2_energy_dft (cfg : Cfg) (hn : cfg.normalized = true) (xs : List ℂ) :
+    C01.energy (fun z => conj z * z) (fft2 (listBackend torchFft) cfg xs) = C01.energy (fun z => conj z * z) xs ∧
+    C01.energy (fun z => conj z * z) (ifft2 (listBackend torchFft) cfg xs) = C01.energy (fun z => conj z * z) xs := by
+  refine C01.fft2_energy (fun z => conj z * z) torchFft (fun inv ys => ?_) cfg hn xs
+  by_cases h0 : ys.length = 0
+  · have : ys = [] := List.eq_nil_of_length_eq_zero h0
+    subst this; simp [torchFft]
+  · have : NeZero ys.length := ⟨h0⟩
+    rw [energy_eq_sum (n := ys.length) _ _ (torchFft_length inv .ortho ys), energy_eq_sum (n := ys.length) _ ys rfl,
+      toFn_torchFft inv .ortho ys rfl]
+    exact energyFn_torchFftFn_ortho inv (toFn ys)
+
+/-- `stdAddChar` is the textbook root of unity: `stdAddChar (j : ℤ/n) = e^{2πi j/n}` -/
+example {n : ℕ} [NeZero n] (j : ℤ) :
+    (stdAddChar (j : ZMod n) : ℂ) = Complex.exp (2 * Real.pi * Complex.I * j / n) := ZMod.stdAddChar_coe j
 
 end DirectVerif.C01Dft
